@@ -303,7 +303,11 @@ def update(config: dict[str, Any], tag: str = "") -> None:
                 clean_graph, flag_type="clean", flag=lambda self, slot: False
             )
             flag_state = "" if to_state == "install" else to_state
-            for vm_object in vm_objects:
+            # a worker could support only some of the vm variants
+            worker_vm_objects = TestGraph().get_objects_by_restr(
+                worker.net.restrs.get(vm_name, ""), subset=vm_objects
+            )
+            for vm_object in worker_vm_objects:
                 try:
                     clean_graph.flag_children(
                         flag_state,
@@ -371,7 +375,7 @@ def update(config: dict[str, Any], tag: str = "") -> None:
                 clean_graph.flag_intersection(
                     skip_graph, flag_type="run", flag=lambda self, slot: False
                 )
-                for vm_object in vm_objects:
+                for vm_object in worker_vm_objects:
                     try:
                         clean_graph.flag_children(
                             from_state,
